@@ -143,6 +143,11 @@ fn run_property(id: &str, tier: &Tier, known: &Known) -> i32 {
         results.push(vcheck::p_builder::run_external(pid, tier.quick, tier.seed));
     }
     for s in &subs {
+        // a violation was found already: report it instead of running further sub-checks on code
+        // that is known to be broken (they could take the whole process down)
+        if results.iter().any(|r: &SubResult| r.violation.is_some()) {
+            break;
+        }
         let cases = if tier.quick { s.quick } else { s.thorough };
         results.push(
             s.p.ddrive(cases, tier.lanes.min(s.max_lanes), tier.seed, known),
